@@ -150,6 +150,8 @@ func c12Explore(src *choice.Src) *core.Result {
 	var entries []c12Entry
 	anyLie := false
 	damage := ""
+	var intact []byte
+	inPlace := false
 	switch source {
 	case 0:
 		n := src.Range(0, 8)
@@ -217,8 +219,11 @@ func c12Explore(src *choice.Src) *core.Result {
 			}
 		}
 		archive = append([]byte(nil), buf.Bytes()...)
+		intact = append([]byte(nil), archive...)
 		if source == 1 && len(archive) > 0 {
-			switch src.Weighted(3, 3, 3) {
+			switch src.Weighted(3, 3, 3, 2) {
+			case 3:
+				damage = c12PatchName(src, archive)
 			case 0:
 				archive = archive[:src.Intn(len(archive))]
 				damage = "truncated"
@@ -232,6 +237,9 @@ func c12Explore(src *choice.Src) *core.Result {
 				damage = c12PatchSizes(src, archive)
 			}
 			res.Faults["at-rest:"+damage]++
+			// the file may change in place after it has been checked and extracted once: same name, same
+			// size, same modification time
+			inPlace = len(archive) == len(intact) && !bytes.Equal(archive, intact) && src.Bool(1, 2)
 		}
 	}
 
@@ -268,6 +276,22 @@ func c12Explore(src *choice.Src) *core.Result {
 	except := target
 	if targetState == "parent-missing" {
 		except = filepath.Join(level, "not")
+	}
+	if inPlace {
+		os.WriteFile(zipFile, intact, 0o644)
+		if st, err := os.Stat(zipFile); err == nil {
+			pre := filepath.Join(sb.root, "earlier-extraction")
+			func() {
+				defer func() { recover() }()
+				modzip.CheckZip(mod.m, zipFile)
+				modzip.Unzip(pre, mod.m, zipFile)
+			}()
+			os.RemoveAll(pre)
+			os.WriteFile(zipFile, archive, 0o644) // same file, same length
+			os.Chtimes(zipFile, st.ModTime(), st.ModTime())
+			res.Faults["at-rest:changed in place after an earlier check and extraction"]++
+			res.Logf("the intact archive was checked and extracted once; then the file changed in place (%s), size and modification time as before", damage)
+		}
 	}
 	before, err := snapshot(sb.root, except)
 	if err != nil {
@@ -392,6 +416,36 @@ func c12Explore(src *choice.Src) *core.Result {
 }
 
 // c12PatchSizes rewrites an uncompressed-size field in a local header or the central directory.
+// c12PatchName replaces one byte of one entry name wherever that name occurs (local header and central
+// directory), keeping every length: the listing changes, the data and their checksums do not.
+func c12PatchName(src *choice.Src, b []byte) string {
+	zr, err := zip.NewReader(bytes.NewReader(b), int64(len(b)))
+	if err != nil || len(zr.File) == 0 {
+		return "name-patch (not applicable)"
+	}
+	name := zr.File[src.Intn(len(zr.File))].Name
+	if len(name) == 0 {
+		return "name-patch (not applicable)"
+	}
+	pos := src.Intn(len(name))
+	repl := []byte{'\\', 'X', '.', '/', ':', 'n', 0x7f}[src.Intn(7)]
+	if name[pos] == repl {
+		repl = 'Q'
+	}
+	n := 0
+	for i := 0; i+len(name) <= len(b); i++ {
+		if string(b[i:i+len(name)]) == name {
+			b[i+pos] = repl
+			n++
+			i += len(name) - 1
+		}
+	}
+	if n == 0 {
+		return "name-patch (not applicable)"
+	}
+	return "entry name patched"
+}
+
 func c12PatchSizes(src *choice.Src, b []byte) string {
 	var locs []int
 	for i := 0; i+30 < len(b); i++ {
